@@ -75,7 +75,7 @@ def _judge(ptext):
     return failed, passed, unfaithful, msgs
 
 
-def kani_replay_many(ROOT, BUILD, ENV, u, obls, run_group, timeout=2400):
+def kani_replay_many(ROOT, BUILD, ENV, u, obls, run_group, timeout=1200):
     """-> {obligation name: (confirmed, [lines])}. One Kani invocation regenerates the counterexamples
     of all failing harnesses of the unit (in parallel), one native run executes all of them."""
     unit = obls[0]["unit"]
